@@ -142,8 +142,13 @@ def verify_items(job):
         if it.get("blob"):
             reset_sut(0)
             try:
-                x = pickle.loads(base64.b64decode(it["blob"]))
-                res["unpickled"] = describe(x)
+                import dask
+
+                # the receiver's own configuration (a worker need not share the client's): in effect
+                # while the copy is unpickled and first read
+                with dask.config.set(it.get("recv_config") or {}):
+                    x = pickle.loads(base64.b64decode(it["blob"]))
+                    res["unpickled"] = describe(x)
             except Exception as e:  # noqa: BLE001
                 res["unpickled"] = {"error": f"{type(e).__name__}: {str(e)[:200]}"}
         out.append(res)
@@ -153,16 +158,48 @@ def verify_items(job):
 # --------------------------------------------------------------------------- generation
 
 
+RECV_KEYS = ["array.chunk-size", "array.chunk-size", "array.unify-chunks-policy", "array.unify-chunks-limit",
+             "array.rechunk.threshold", "array.optimize-graph", "split_every"]
+
+
+RECV_CHUNK_SIZES = ["8B", "16B", "32B", "64B", "256B", "4KiB"]  # generated sources are 1 B .. 4 KiB
+_bias = [None]  # generation-time only: the key the current recipe is most sensitive to
+
+
+def _recv_config(rng):
+    """Configuration of the RECEIVING side of a pickle (1-2 keys of the planner domain)."""
+    out = {}
+    for _ in range(rng.choice([1, 1, 2])):
+        k = _bias[0] if (_bias[0] and rng.random() < 0.6) else rng.choice(RECV_KEYS)
+        out[k] = rng.choice(RECV_CHUNK_SIZES if k == "array.chunk-size" else H.CONFIG_DOMAIN[k])
+    return out
+
+
 def gen(rng, tier):
+    _bias[0] = None
     ctx = G.Ctx(rng)
     names = sorted(G.OPS)
     ctx.enabled = G.swarm_subset(rng, names, 0.75, always=("from_array", "binary", "rechunk", "getitem"))
     ctx.weights = {"random": 1.5, "map_blocks": 1.5, "userfn": 1.0}
+    ctx.p_auto_chunks = rng.choice([0.05, 0.2, 0.5])
     ctx.p_simsource = rng.choice([0.0, 0.3, 0.6])
     ctx.p_untokenizable = rng.choice([0.0, 0.0, 0.3])
     ctx.p_array_param = 0.3
     ctx.rec_fns = rng.random() < 0.3
     recipe, targets = c09.gen_programs(rng, ctx, tier, 3, 10)
+    leaves = [s_["out"] for s_ in recipe["steps"] if s_["op"] == "from_array" and s_["out"] not in targets]
+    auto = [s_["out"] for s_ in recipe["steps"] if s_["op"] in ("from_array", "creation") and s_["out"] not in targets
+            and isinstance(s_["args"].get("chunks"), str)]
+    p_lazy = rng.choice([0.0, 0.3, 0.6])
+    if auto and rng.random() < 0.7:
+        # config-resolved chunk specs ("auto", "1KiB"): the resolved grid must travel with the name
+        targets.insert(0, rng.choice(auto))
+        p_lazy = max(p_lazy, 0.5)
+        _bias[0] = "array.chunk-size"
+    elif leaves and rng.random() < 0.4:
+        targets.append(rng.choice(leaves))  # a bare source collection: nothing has read its block structure yet
+    else:
+        _bias[0] = None
     hist = []
     built, extra = [], []
     k = [0]
@@ -175,7 +212,20 @@ def gen(rng, tier):
         if unbuilt and (not live or r < 0.2):
             t = rng.choice(unbuilt)
             built.append(t)
-            hist.append({"ev": "build", "var": t})
+            if rng.random() < p_lazy:
+                # "lazy" build: the harness does not look at the new collection (no name, chunks, keys,
+                # graph read), so whatever is still unresolved stays unresolved when it is serialised
+                hist.append({"ev": "build", "var": t, "lazy": True})
+                r2 = rng.random()
+                if r2 < 0.4:
+                    hist.append({"ev": "restart", "vars": [t], "recv_config": _recv_config(rng) if rng.random() < 0.7 else None})
+                elif r2 < 0.7:
+                    k[0] += 1
+                    sl = f"b{k[0]}"
+                    hist.append({"ev": "dump", "var": t, "slot": sl, "lazy": True})
+                    slots.append(sl)
+            else:
+                hist.append({"ev": "build", "var": t})
         elif not live:
             continue
         elif r < 0.3:
@@ -206,7 +256,10 @@ def gen(rng, tier):
         elif r < 0.86 and slots:
             k[0] += 1
             o = f"l{k[0]}"
-            hist.append({"ev": "load", "slot": rng.choice(slots), "out": o})
+            e_ = {"ev": "load", "slot": rng.choice(slots), "out": o}
+            if rng.random() < 0.5:
+                e_["config"] = _recv_config(rng)
+            hist.append(e_)
             extra.append(o)
         elif r < 0.9 and built:
             v = rng.choice(built)
@@ -218,10 +271,11 @@ def gen(rng, tier):
         elif r < 0.96 and built:
             hist.append({"ev": "build", "var": rng.choice(built), "force": True})
         else:
-            hist.append({"ev": "restart", "vars": rng.sample(live, min(len(live), rng.randint(1, 3)))})
+            hist.append({"ev": "restart", "vars": rng.sample(live, min(len(live), rng.randint(1, 3))),
+                         "recv_config": _recv_config(rng) if rng.random() < 0.5 else None})
     live = built + extra
     if live:
-        hist.append({"ev": "restart", "vars": live[:4]})
+        hist.append({"ev": "restart", "vars": live[:4], "recv_config": _recv_config(rng) if rng.random() < 0.5 else None})
     return {"recipe": recipe, "targets": targets, "history": hist}
 
 
@@ -276,7 +330,8 @@ def execute(case, stats, log):
             continue
         if kind == "dump":
             try:
-                blobs[ev["slot"]] = (cloudpickle.dumps(m.pool[var]), m.origin.get(var), describe(m.pool[var]), var)
+                blob_ = cloudpickle.dumps(m.pool[var])  # first the bytes, then the look at the collection
+                blobs[ev["slot"]] = (blob_, m.origin.get(var), describe(m.pool[var]), var)
             except Exception as e:  # noqa: BLE001
                 if opaque(var):
                     continue
@@ -286,14 +341,23 @@ def execute(case, stats, log):
             if ev["slot"] not in blobs:
                 continue
             blob, org, desc0, v0 = blobs[ev["slot"]]
-            try:
-                y = pickle.loads(blob)
-            except Exception as e:  # noqa: BLE001
-                raise Violation(ID, "unpickle-raises", f"event {i}: unpickling {v0} raised {type(e).__name__}: {str(e)[:200]}", step=i)
+            import dask
+
+            # the configuration in effect while the copy is unpickled and first read may differ from
+            # the one it was dumped under (scoped, so later rebuilds still see the history's config)
+            with dask.config.set(ev.get("config") or {}):
+                try:
+                    y = pickle.loads(blob)
+                except Exception as e:  # noqa: BLE001
+                    raise Violation(ID, "unpickle-raises", f"event {i}: unpickling {v0} raised {type(e).__name__}: {str(e)[:200]}", step=i)
+                desc1 = describe(y)
+            if ev.get("config"):
+                stats["fault.load_under_other_config"] = stats.get("fault.load_under_other_config", 0) + 1
             m.pool[ev["out"]] = y
             m.origin[ev["out"]] = org
             stats["pickle_checks"] = stats.get("pickle_checks", 0) + 1
-            check_same(i, "pickle-changes-collection", desc0, describe(y), f"{v0} (dumped earlier, loaded now)", PICKLE_FIELDS)
+            check_same(i, "pickle-changes-collection", desc0, desc1,
+                       f"{v0} (dumped earlier, loaded now{' under ' + str(ev['config']) if ev.get('config') else ''})", PICKLE_FIELDS)
             continue
         if kind == "restart":
             vs = [v for v in ev["vars"] if v in m.pool]
@@ -311,6 +375,9 @@ def execute(case, stats, log):
                     it["blob"] = None
                 if not it["rebuild"] and not it["blob"]:
                     continue
+                if ev.get("recv_config"):
+                    it["recv_config"] = ev["recv_config"]
+                    stats["fault.restart_under_other_config"] = stats.get("fault.restart_under_other_config", 0) + 1
                 items.append(it)
                 local.append((v, describe(x)))
             if not items:
@@ -326,7 +393,8 @@ def execute(case, stats, log):
                     if "error" in res["unpickled"]:
                         raise Violation(ID, "unpickle-raises", f"event {i}: unpickling {v} in a fresh interpreter raised {res['unpickled']['error']}", step=i)
                     check_same(i, "pickle-changes-collection", here, res["unpickled"],
-                               f"{v} unpickled in a fresh interpreter (PYTHONHASHSEED={ans.get('hashseed')})", PICKLE_FIELDS)
+                               f"{v} unpickled in a fresh interpreter (PYTHONHASHSEED={ans.get('hashseed')}"
+                               f"{', receiver config ' + str(ev['recv_config']) if ev.get('recv_config') else ''})", PICKLE_FIELDS)
                     if here.get("graph_keys") != res["unpickled"].get("graph_keys"):
                         stats["unclaimed.graph_keys_differ_after_pickle"] = stats.get("unclaimed.graph_keys_differ_after_pickle", 0) + 1
                 if "rebuilt" in res:
@@ -354,6 +422,10 @@ def execute(case, stats, log):
         if kind == "build":
             builds.append({"var": var, "force": ev.get("force", False)})
             x = out["x"]
+            if ev.get("lazy") and var not in first_desc:
+                stats["probe.lazy_build"] = stats.get("probe.lazy_build", 0) + 1
+                log.append([i, "build-lazy", var])
+                continue
             d = describe(x)
             if var in first_desc and not opaque(var) and not _has_random(recipe, var):
                 stats["rebuild_checks"] = stats.get("rebuild_checks", 0) + 1
@@ -394,6 +466,31 @@ def _pre_f12(case, result):
     return any(sp.get("masked") for sp in srcs.values()) and any(e["ev"] in ("pickle", "load") for e in case["history"])
 
 
+def _cfgs(e):
+    return [c for c in (e.get("recv_config"), e.get("config") if e["ev"] == "load" else None) if c]
+
+
+def _pre_f15(case, result):
+    # F15: a raw Blockwise/Elemwise over differently chunked operands advertises the chunks unified under
+    # the policy in effect when ``.chunks`` is FIRST READ; pickled before that (nothing cached travels),
+    # the receiver resolves them under ITS unify policy/limit -> same name, other chunks/keys.
+    if result.get("cls") != "pickle-changes-collection":
+        return False
+    return any(k in H.UNIFY_KEYS for e in case["history"] for c in _cfgs(e) for k in c)
+
+
+def _abl_f15(case):
+    hist = []
+    for e in case["history"]:
+        e = dict(e)
+        for f in ("recv_config", "config"):
+            if isinstance(e.get(f), dict) and (f == "recv_config" or e["ev"] == "load"):
+                e[f] = {k: v for k, v in e[f].items() if k not in H.UNIFY_KEYS} or None
+        hist.append(e)
+    return dict(case, history=hist)
+
+
 FINDING_ABLATIONS = {
+    "F15": (_pre_f15, _abl_f15),
     "F12": (_pre_f12, lambda case: dict(case, history=[e for e in case["history"] if e["ev"] not in ("pickle", "load", "dump")])),
 }
